@@ -50,7 +50,7 @@ def write_cfg(path, has_thr, nq, depth, maxobjs=3, maxh=2, fit_transform=True, c
       f.write('INVARIANT %s\n' % i)
     for i in ['OnlyFitChangesModel', 'OnlyThreeActionsChangeThreshold', 'OnlySetParamsChangesParams',
               'OnlyFitAndCalibrateChangePreprocessorInForce',
-              'HandlesImmutable', 'ObjectsNeverDisappear', 'FitIsHistoryIndependent']:      # + VerboseIsTransparent (invariant)
+              'HandlesImmutable', 'ObjectsNeverDisappear', 'FitIsHistoryIndependent', 'RefinesObjLife']:      # + VerboseIsTransparent (invariant)
       f.write('PROPERTY %s\n' % i)
     f.write('CHECK_DEADLOCK FALSE\n')
 
